@@ -276,7 +276,16 @@ fn stream_of(c: &LongConn) -> Stream {
         }
         Traffic::BinaryAfterSyn => Stream { bytes: r.bytes(total), from_client: true, syn: true },
         Traffic::TlsHugeDeclared => {
-            let mut b = vec![0x16, 3, 1, 0xff, 0xff, 1, 0, 0xff, 0xfb];
+            // announced lengths: the maximum, and values between the protocol's limit and the maximum (just above a
+            // power of two, just above the limit) - a record this long never completes within a few segments
+            let len: usize = if r.chance(1, 2) {
+                // a little more than the run delivers: the record is still growing during the last tenth of the run
+                (total + 1000).clamp(16385 + 2048, 0xffff)
+            } else {
+                *r.pick(&[0xffffusize, 40000, 33000, 20000, 18433, 16385 + 2048])
+            };
+            let mut b = vec![0x16, 3, 1, (len >> 8) as u8, len as u8, 1, 0];
+            b.extend_from_slice(&((len - 4) as u16).to_be_bytes());
             b.extend_from_slice(&r.bytes(total.saturating_sub(9)));
             Stream { bytes: b, from_client: true, syn: true }
         }
@@ -479,8 +488,12 @@ fn run_once(s: &Scn, st: &mut RunStats) -> Result<(), Violation> {
                 let mut first: Vec<u64> = v[..tenth].to_vec();
                 let mut last: Vec<u64> = v[v.len() - tenth..].to_vec();
                 let (mf, ml) = (median(&mut first), median(&mut last));
-                // growth up to the plateau of a full (capped) buffer is bounded work; beyond it, it is history-dependent
-                if ml > 2 * mf + A_CONST / 2 {
+                // growth up to the plateau of a full (capped) buffer is bounded work; beyond it, it is history-dependent.
+                // The TLS analyzer appends to one buffer per flow and parses a record once: its per-packet allocation
+                // is amortised to next to nothing, so the slack is 16 KiB there instead of the 2 MiB the HTTP parsers'
+                // temporaries need
+                let slack = if s.kind == Kind::Tls { 16 * 1024 } else { A_CONST / 2 };
+                if ml > 2 * mf + slack {
                     return Err(Violation::new("work-grows-with-history", format!("{}:{:?}", s.kind.name(), s.conns[ci].traffic), format!("connection {} ({:?}): median allocation per packet grew from {} B (first tenth) to {} B (last tenth) over {} segments", ci, s.conns[ci].traffic, mf, ml, v.len())));
                 }
             }
@@ -531,7 +544,7 @@ impl Prop for C11 {
         let mut conns = vec![];
         for i in 0..m {
             let traffic = match kind {
-                Kind::Tls => *r.pick(&[Traffic::RepeatedSynWithData, Traffic::TlsHugeDeclared, Traffic::TlsManyNonHelloRecords, Traffic::TlsManyNonHelloRecords, Traffic::TlsAppDataAfterNonHello, Traffic::TlsAppDataAfterNonHello, Traffic::BinaryAfterSyn, Traffic::RandomNoSyn, Traffic::Completing]),
+                Kind::Tls => *r.pick(&[Traffic::RepeatedSynWithData, Traffic::TlsHugeDeclared, Traffic::TlsHugeDeclared, Traffic::TlsHugeDeclared, Traffic::TlsManyNonHelloRecords, Traffic::TlsManyNonHelloRecords, Traffic::TlsAppDataAfterNonHello, Traffic::TlsAppDataAfterNonHello, Traffic::BinaryAfterSyn, Traffic::RandomNoSyn, Traffic::Completing]),
                 Kind::Tcp => *r.pick(&[Traffic::BinaryAfterSyn, Traffic::EndlessHttpHead, Traffic::RandomNoSyn, Traffic::Completing, Traffic::RepeatedSynWithData]),
                 _ => *r.pick(&[Traffic::EndlessHttpHead, Traffic::EndlessFoldedHead, Traffic::RepeatedSynWithData, Traffic::TlsManyNonHelloRecords, Traffic::WrongKindThenEndless, Traffic::WrongKindThenEndless, Traffic::EndlessHttpResponseHead, Traffic::BinaryAfterSyn, Traffic::TlsHugeDeclared, Traffic::TlsAppDataAfterNonHello, Traffic::RandomNoSyn, Traffic::Completing]),
             };
@@ -575,6 +588,51 @@ impl Prop for C11 {
             return Scn { cap: *r.pick(&[1usize, 2, 4]), conns: vec![], churn: Some(Churn { n_values, repeats: r.urange(1, 3), value_len: *r.pick(&[200usize, 800, 1500]), seed: r.next_u64(), distance: *r.pick(&[0usize, 1, 7, 100]), on_syn: r.chance(1, 3) }), ..scn };
         }
         scn
+    }
+
+    fn systematic(_tier: Tier) -> Vec<Scn> {
+        // every (analyzer, traffic kind) pair once with small and once with large segments, one connection, run
+        // lengths of 27..60 KB in which a buffered record or head is still growing at the end: a fixed floor under
+        // what the seeded scenarios happen to draw
+        const ALL: [Traffic; 12] = [
+            Traffic::EndlessHttpHead,
+            Traffic::EndlessHttpResponseHead,
+            Traffic::BinaryAfterSyn,
+            Traffic::TlsHugeDeclared,
+            Traffic::TlsAppDataAfterNonHello,
+            Traffic::TlsManyNonHelloRecords,
+            Traffic::RandomNoSyn,
+            Traffic::WrongKindThenEndless,
+            Traffic::Completing,
+            Traffic::EndlessFoldedHead,
+            Traffic::RepeatedSynWithData,
+            Traffic::TlsHugeDeclared,
+        ];
+        let mut out = vec![];
+        for kind in Kind::ALL {
+            for (ti, traffic) in ALL.iter().enumerate() {
+                for (seg_size, n_segs) in [(64usize, 600usize), (536, 50), (1200, 50), (64, 940)] {
+                    if (ti == 11) != (seg_size == 64 && n_segs == 940) && ti == 11 {
+                        continue; // the twelfth entry is the extra TLS run length only
+                    }
+                    if ti != 11 && ti != 3 && n_segs == 940 {
+                        continue;
+                    }
+                    out.push(Scn {
+                        kind,
+                        cap: 4,
+                        conns: vec![LongConn { traffic: *traffic, client: Endpoint::v4(10, 3, 9, 1, 40000 + ti as u16), server: Endpoint::v4(10, 4, 0, 1, 443), seg_size, n_segs, payload_seed: 0xC11_0000 + (ti * 7 + seg_size) as u64 }],
+                        gap_ns: 100_000,
+                        idle_every: 0,
+                        idle_ns: 0,
+                        churn: None,
+                        crowd: None,
+                        noise: None,
+                    });
+                }
+            }
+        }
+        out
     }
 
     fn timing_classes() -> &'static [&'static str] {
